@@ -5,6 +5,8 @@ package schedlib
 import (
 	"encoding/json"
 	"fmt"
+	"os"
+	"time"
 
 	"github.com/semafind/semadb/zzverif/vsched"
 	"semaverif/engine/schedx"
@@ -41,11 +43,18 @@ func Handler(run RunFn) func(raw json.RawMessage) (json.RawMessage, error) {
 			}
 			prefix := stack[len(stack)-1]
 			stack = stack[:len(stack)-1]
+			t0 := time.Now()
 			tr, viols, outcome := run(j.Program, prefix)
+			if os.Getenv("VERIF_TRACE") != "" {
+				fmt.Fprintf(os.Stderr, "@@T exec %d steps=%d snapshots=%d settle=%v took=%v deadlock=%v unsettled=%v diverged=%q\n", res.Executions, len(tr.Steps), tr.Snapshots, time.Duration(tr.SettleNs), time.Since(t0), tr.Deadlock, tr.Unsettled, tr.Diverged)
+			}
 			// inherent nondeterminism of the code under test (Go map iteration
 			// order) can make a recorded prefix unreplayable; retry, the matching
 			// order comes up again quickly
 			for retry := 0; tr.Diverged != "" && retry < 12; retry++ {
+				if res.DivSample == "" {
+					res.DivSample = fmt.Sprintf("(resolved by retry) prefix %v: %s", prefix, tr.Diverged)
+				}
 				tr, viols, outcome = run(j.Program, prefix)
 				res.Retries++
 			}
@@ -57,6 +66,7 @@ func Handler(run RunFn) func(raw json.RawMessage) (json.RawMessage, error) {
 			if tr.Diverged != "" {
 				// never a verdict: the same prefix produced a different enabled set
 				res.Diverged++
+				res.DivSample = fmt.Sprintf("prefix %v: %s", prefix, tr.Diverged)
 				continue
 			}
 			if tr.Horizon {
